@@ -301,12 +301,15 @@ pub fn enforce_limbs_agg<E: FieldElement<BaseField = Felt>>(
     let u32op_ex_div_assert2_sub = u32op_ex_div_assert2 - op_flag.u32sub();
 
     // Enforces that aggregation of the two lower 16-bits limbs is equal to the second stack element
-    // in the next row.
-    result[0] = u32op_ex_div_assert2 * are_equal(frame.stack_item_next(1), limbs.v_lo());
+    // in the next row. For U32ASSERT2 the lower limbs decompose the top element and the upper limbs
+    // the second element, so the roles of the two stack positions are swapped.
+    result[0] = u32op_ex_div_assert2 * are_equal(frame.stack_item_next(1), limbs.v_lo())
+        + op_flag.u32assert2() * are_equal(frame.stack_item_next(1), limbs.v_hi());
 
     // Enforces that aggregation of the two upper 16-bits limbs is equal to the first stack element
     // in the next row.
-    result[1] = u32op_ex_div_assert2_sub * are_equal(frame.stack_item_next(0), limbs.v_hi());
+    result[1] = u32op_ex_div_assert2_sub * are_equal(frame.stack_item_next(0), limbs.v_hi())
+        + op_flag.u32assert2() * are_equal(frame.stack_item_next(0), limbs.v_lo());
 
     2
 }
